@@ -108,6 +108,8 @@ pub mod network;
 pub mod queue;
 pub mod queue_event;
 pub mod queue_peek;
+#[cfg(feature = "verif")]
+pub mod verif;
 
 use std::{
     cmp::Ordering,
@@ -941,6 +943,8 @@ fn trigger_update<M: AsRef<[Machine]>>(
         .framework
         .trigger_events(&[next.event.clone()], *current_time)
     {
+        #[cfg(feature = "verif")]
+        verif::log_action(is_client, *current_time, action);
         match action {
             TriggerAction::Cancel { machine, timer } => {
                 debug!(
